@@ -989,6 +989,21 @@ func specTextFlag(inURL, isURLSet bool) int8 {
 //@   props X00 C17
 //@   panics allowed
 //@   litassert[C17] ast.Upvar 1 lit.NativePkg == ti.NativePackageName && lit.NativeName == ident.Name && lit.Declaration == nil
+//@   loop 3
+//@     invariant[C17] add ==> forall(0, rangeIndex(3), func(j int) bool { return fn.Upvars[j].NativeValue != upvar.NativeValue })
+//@     invariant[C17] !add ==> specHasNativeUpvar(fn, upvar.NativeValue)
+
+// specHasNativeUpvar: the function records the predefined variable v among its
+// captured variables (what setFunctionVarRefs later turns into a VarRef; a
+// nested function literal that lacks the record resolves the variable to a
+// stray closure index). For each enclosing function the search loop decides
+// `add` from that function's own records: add holds only if none of the records
+// seen so far is v, and !add only if the function has the record. (That every
+// function then ends up with the record is not claimed: the existential after
+// the append does not discharge within the time limit.)
+func specHasNativeUpvar(fn *ast.Func, v *reflect.Value) bool {
+	return exists(0, len(fn.Upvars), func(j int) bool { return fn.Upvars[j].NativeValue == v })
+}
 
 // ---------------------------------------------------------------------------
 // C18: template file loading stays inside the file system and does not recurse.
